@@ -12,8 +12,19 @@ def make_raster(ds, shape=None, dtype=np.int32, **kw):
     import pyflwdir
     a = ds_array(ds, dtype)
     if shape is None:
-        shape = (1, len(ds))
+        shape = shape2d(len(ds), sum(int(d) * (i + 1) for i, d in enumerate(ds)))
     return pyflwdir.FlwdirRaster(idxs_ds=a, shape=shape, ftype="d8", **kw)
+
+
+def shape2d(n, key):
+    """a raster shape for a network given as a flat list: (1, n) or, half of the time when n is composite, (r, n // r);
+    callers that pass (1, n)-shaped fields get them reshaped by apifuzz; nothing geometric may be asked of such objects"""
+    import os
+    divs = [r for r in range(2, n) if n % r == 0]
+    if not divs or key % 2 == 0 or os.environ.get("VERIF_NOFUZZ"):
+        return (1, n)
+    r = divs[(key // 2) % len(divs)]
+    return (r, n // r)
 
 
 def make_vector(ds, dtype=np.int32, **kw):
